@@ -33,9 +33,11 @@ def inject_job(pages, jobs):
     res = env.Result()
     fw = _dfu.firmware(pages * 7 + 1, pages * 1024 - (pages % 2) * 100, 0)
     with env.scratch_dir('bbv-c19-') as d:
-        for (inj, sched_seed) in jobs:
+        for job in jobs:
+            inj, sched_seed = job[0], job[1]
+            start_error = job[2] if len(job) > 2 else None   # the device is found in dfuERROR with this status (left by an earlier run)
             res.evaluations += 1
-            sched = c18.make_schedule(sched_seed, 0.3 if sched_seed else 0.0, pages + 1, None)
+            sched = c18.make_schedule(sched_seed, 0.3 if sched_seed else 0.0, pages + 1, start_error)
             sched['inject'] = {(k, i): (st_, beh) for (k, i, st_, beh) in inj}
             r = _dfu.run(16 if pages <= 16 else 32, fw, sched, d)
             why = outcome_ok_for_failure(r)
@@ -45,10 +47,13 @@ def inject_job(pages, jobs):
                 continue
             res.nontrivial_count += 1
             res.count('inject:%s:%s' % (inj[0][0], inj[0][3]) if len(inj) == 1 else 'inject:double')
+            if start_error:
+                res.count('inject:device_found_in_dfuERROR')
             if why:
                 kinds = '+'.join(sorted({'%s:%s' % (k, beh) for (k, i, st_, beh) in inj}))
-                res.fail('inject:%s' % kinds, '%s\n  injected %r in a %d page run; exit %r\n  output: %r' % (why, inj, pages, r['exit'], r['out'][-250:]),
-                         {'kind': 'inject', 'pages': pages, 'inj': [list(x) for x in inj], 'sched_seed': sched_seed})
+                res.fail('inject:%s%s' % (kinds, ':start_error' if start_error else ''), '%s\n  injected %r in a %d page run (device found in dfuERROR with status %r); exit %r\n  output: %r' % (
+                    why, inj, pages, start_error, r['exit'], r['out'][-250:]),
+                         {'kind': 'inject', 'pages': pages, 'inj': [list(x) for x in inj], 'sched_seed': sched_seed, 'start_error': start_error})
         if jobs:
             res.sample({'pages': pages, 'example_injection': [list(x) for x in jobs[len(jobs) // 2][0]]})
     return res
@@ -67,7 +72,7 @@ def oversize_job(pc, extras):
                 fw = fw[:pc * 1024] + b'\xff' * extra
             elif extra % 3 == 2:
                 fw = fw[:pc * 1024 - 7] + b'\x00' * (extra + 7)
-            r = _dfu.run(pc, fw, {}, d)
+            r = _dfu.run(pc, fw, {}, d, symlink=(extra % 4 >= 2))   # half of them named through a symbolic link
             dev = r['device']
             if dev.dnloads or bytes(dev.flash) != dev.initial:
                 res.fail('oversize:touched', 'firmware of %d bytes for a %d byte flash: %d DNLOAD requests reached the device' % (n, pc * 1024, dev.dnloads),
@@ -95,6 +100,10 @@ def run(tier):
     for pages in (1, 2, 3, 16):
         singles = [([(kind, k, status, beh)], 0 if (status + k) % 3 else 17 + k) for kind in ('erase', 'addr', 'write') for k in range(pages)
                    for status in range(1, 16) for beh in ('spec', 'lenient')]
+        # the same single injections against a device that is found in dfuERROR (left there by an earlier failed run) - with the very
+        # status the injected fault reports later, or with another one
+        singles += [([(kind, k, status, beh)], 0 if (status + k) % 2 else 23 + k, status if (k + status) % 4 else 1 + (status + 6) % 15)
+                    for kind in ('erase', 'addr', 'write') for k in range(min(pages, 4)) for status in range(1, 16) for beh in ('spec', 'lenient')]
         for i in range(0, len(singles), 120):
             jobs.append((inject_job, pages, singles[i:i + 120]))
         nd = {'quick': 500, 'thorough': 50000}[tier] // 4
@@ -109,9 +118,9 @@ def run(tier):
     chk.merge(env.run_shards(_dispatch, jobs))
     chk.exhaustive = True
     chk.rule = ('(a) oversize: every length size+1..size+2048 (16 KiB variant; every 16th on the others in quick, all in thorough) and larger ones '
-                '(random content, or the excess being pure 0xFF / 0x00 fill) on the 4 flash sizes: no DNLOAD may reach the simulated device, flash unchanged, exit != 0; (b) fault enumeration: runs of 1, 2, '
+                '(random content, or the excess being pure 0xFF / 0x00 fill; the path given directly or through a symbolic link) on the 4 flash sizes: no DNLOAD may reach the simulated device, flash unchanged, exit != 0; (b) fault enumeration: runs of 1, 2, '
                 '3 and 16 pages x every single injection point (erase k, set-address k, write k) x status 1..15 x device behaviour {spec: enters '
-                'dfuERROR and stalls, lenient: reports the status once and carries on} - complete; plus seed-drawn double injections with busy '
+                'dfuERROR and stalls, lenient: reports the status once and carries on} - complete, and again with the device found in dfuERROR at the start (same status as the later fault, or another); plus seed-drawn double injections with busy '
                 'schedules. oracle: done! not printed, exit status != 0, output names the failure. non-trivial = every injection that the run '
                 'reached / every oversize length; distinct by construction')
     chk.assumptions = ['vlib/dfusim.py device model', 'an escaping USB error (stalled transfer) counts as a non-zero exit naming the failure']
@@ -125,7 +134,7 @@ def replay(path):
     if c['kind'] == 'oversize':
         r = oversize_job(c['pages'], [c['extra']])
     else:
-        r = inject_job(c['pages'], [([tuple(x) for x in c['inj']], c['sched_seed'])])
+        r = inject_job(c['pages'], [([tuple(x) for x in c['inj']], c['sched_seed'], c.get('start_error'))])
     if r.failures:
         print('VIOLATION property=%s replay=%s' % (PROP, path))
         print('  ' + r.failures[0]['what'][:800])
